@@ -381,6 +381,35 @@ def check_C02(A: Analysis, tier):
         rc.fail(ca, "support check", f"_clean_algorithm validates against {sorted(tested)} only", A.p.loc(ca, ca.node))
     rules.append(rc)
 
+    re2 = Rule("C02", "C02.e", "_clean_algorithm decides nothing from the caller's spelling case-sensitively: every string "
+               "predicate on the raw name is applied to a case-folded form (or is a per-character digit test)", floor=2)
+    ca = A.p.func(Q("_clean_algorithm"))
+    pname = ca.node.args.args[1].arg
+    raw_names = {pname}
+    for n in ast.walk(ca.node):
+        if isinstance(n, ast.Attribute) and isinstance(n.ctx, ast.Load):
+            rn, chain = root_name(n)
+            if rn in raw_names and n.attr in ("lower", "casefold", "upper", "replace", "strip", "startswith", "endswith", "find", "index", "count", "split", "isdigit", "isalpha"):
+                parent = getattr(n, "_parent", None)
+                if isinstance(parent, ast.Call) and parent.func is n:
+                    re2.ob()
+                    re2.inst(f"_clean_algorithm: {norm(parent)[:60]}")
+                    folded = any(c in ("lower", "casefold", "upper") for c in chain[:-1]) or n.attr in ("lower", "casefold", "upper")
+                    if n.attr in ("startswith", "endswith", "find", "index", "count", "split") and not folded:
+                        re2.fail(ca, parent, f"`{norm(parent)}` inspects the caller's spelling case-sensitively: an upper/mixed-case spelling of a supported "
+                                 "algorithm takes another cleaning branch and is rejected or mis-named", A.p.loc(ca, parent))
+        if isinstance(n, ast.Compare):
+            for side in [n.left] + n.comparators:
+                rn, chain = root_name(side)
+                if rn in raw_names and not any(c in ("lower", "casefold", "upper") for c in chain) and isinstance(side, (ast.Name, ast.Subscript)) \
+                        and any(isinstance(o, ast.Constant) and isinstance(o.value, str) for o in [n.left] + n.comparators):
+                    re2.ob()
+                    re2.inst(f"_clean_algorithm: {norm(n)[:60]}")
+                    re2.fail(ca, n, f"`{norm(n)}` compares the caller's spelling case-sensitively with a literal", A.p.loc(ca, n))
+    if not any(isinstance(c, ast.Call) and isinstance(c.func, ast.Attribute) and c.func.attr in ("lower", "casefold") for c in ast.walk(ca.node)):
+        re2.fail(ca, "lower()", "_clean_algorithm no longer case-folds the name", A.p.loc(ca, ca.node))
+    rules.append(re2)
+
     rd = Rule("C02", "C02.d", "the digest map's keys are exactly the list _refine_algorithm_list returned for this "
               "call's own arguments", floor=2)
     it = A.api("store_object", "th")
@@ -535,6 +564,23 @@ def check_C06(A: Analysis, tier):
         if any(k == "return" for k, l, s, r in it.exits):
             f = A.p.func(Q("_check_arg_algorithms_and_checksum"))
             re_.fail(f, label, f"{label} is accepted: validation is silently skipped or half-applied", A.p.loc(f, f.node))
+    f_ = A.p.func(Q("_check_arg_algorithms_and_checksum"))
+    for label, add in (("additional algorithm unknown", V(P("additional_algorithm"))), ("no additional algorithm", V(NONE)),
+                       ("additional algorithm = store algorithm", V(("selfattr", "algorithm")))):
+        ov = {"checksum": V(C("abc")), "checksum_algorithm": V(C("SHA-256")), "additional_algorithm": add}
+        it = A.run(Q("_check_arg_algorithms_and_checksum"), "th", overrides=ov, tagk="pair:" + label)
+        for k, l, st, rv in it.exits:
+            if k != "return":
+                continue
+            re_.ob()
+            for t in rv:
+                second = t[1][1] if tag(t) == "tuple" and len(t[1]) == 2 else EMPTY
+                re_.inst(f"checksum + algorithm given ({label}): checked algorithm {showv(second)[:60]}")
+                bad = [x for x in second if x == NONE or not any(y == C("SHA-256") for y in subterms(x))]
+                if bad or not second:
+                    re_.fail(f_, "checksum_algorithm_checked", f"with a checksum and its algorithm given ({label}) the algorithm handed on to the "
+                             f"verifier can be {showv(frozenset(bad))[:60]} instead of the cleaned name: the checksum comparison is then skipped and a "
+                             "wrong checksum accepted", A.p.loc(f_, f_.node))
     rules.append(re_)
     return rules
 
